@@ -47,6 +47,10 @@ CHECKS = {
    technique="runtime monitoring: relational monitor running each From-Root operation and its From-Markdown counterpart (and alias) on the same tree and comparing bytes, visit sequences, jail snapshots and error classes; pointer-identity monitor for Add",
    text="Every single-root labeled tree up to 5/6 nodes, built by four Add orders with repeated Adds of existing names, and 3k/50k random trees with hostile names: text (3 branch tuples), JSON, YAML, TOML, walk, iterator, mkdir, verify and dry-run through the From-Root family must equal the From-Markdown family's result for a spelling of the same tree; Add of an existing name must return the very same node; nil and non-root nodes must yield ErrNilNode/ErrNotRoot through all 12 entry points with zero bytes written and an unchanged jail; aliases must equal their replacements.",
    note="Massive is compared in C10. LF/CR/empty names only on the From-Root side (compared across From-Root operations and aliases). MkdirFromRoot+dry-run is compared with Output+dry-run (the CLI route), not with MkdirFromMarkdown+dry-run (known finding KF-C09-1)."),
+ "C17": dict(level="exploration", design="DESIGN.md §4 C17",
+   technique="runtime monitoring: differential monitor over two builds (default tags vs -tags tinywasm) of one driver fed the same case stream",
+   text="Degenerate inputs, every labeled forest up to 5/7 nodes in several spellings, every single-line malformation injection, random well-formed and mutated documents and raw bytes are sent to the same tiny driver compiled with the default tags and with -tags tinywasm; for text (default and 4 custom branch tuples), JSON and dry-run (4 extension lists) the accept/reject decision must agree and accepted outputs must be byte-identical.",
+   note="The tinywasm variant is built natively (same Go sources as the web page's wasm); TinyGo/syscall-js glue is out of scope. Error texts are not compared."),
 }
 PENDING = {}
 ids = [json.loads(l)["id"] for l in open("/verif/properties.jsonl")]
